@@ -386,6 +386,11 @@ def spy(name, real):
 order = []
 real_fshift = v.fourier.fshift; real_interp = v.interpolate_bad_channels; real_sos = v.scipy.signal.sosfiltfilt
 v.kfilt = spy('kfilt', lambda d, **kw: d * 0 + 7.0); v.car = spy('car', lambda d, **kw: d * 0 + 7.0)
+def tracer(name, real):
+    def f(*a, **kw):
+        order.append(name); return real(*a, **kw)
+    return f
+v.fourier.fshift = tracer('fshift', real_fshift); v.interpolate_bad_channels = tracer('interpolate', real_interp); v.scipy.signal.sosfiltfilt = tracer('sosfiltfilt', real_sos)
 nc = 96; labels = np.zeros(nc); lab = {lab}
 for i, l in enumerate(lab): labels[10 * i + 3] = l
 h = neuropixel.trace_header(version=1); h = {{k: vv[:nc] for k, vv in h.items()}}
@@ -396,6 +401,8 @@ bad = []
 if len(calls) != 1 or calls[0][1].shape[0] != inside.size: bad.append(('spatial filter saw', [c[1].shape for c in calls], 'expected rows', inside.size))
 if not np.all(out[inside] == 7.0): bad.append('inside rows are not the filter output')
 if outside.size and np.any(out[outside] == 7.0): bad.append('outside-brain rows overwritten by the filter')
+want = ['sosfiltfilt', 'fshift'] + (['interpolate'] if 'interpolate' in order else [])
+if order[:len(want)] != want: bad.append(('order of the steps', order, 'expected: high-pass, ADC re-alignment, then interpolation of the bad channels'))
 print(bad)
 if bad: reproduced(str(bad))
 not_reproduced()
